@@ -94,3 +94,86 @@ Print Assumptions C01_example_zbdd.
 Theorem C01_example_bdd : WF ex_snap /\ terms_kind ex_snap.
 Proof. exact ex_snap_WFfull. Qed.
 Print Assumptions C01_example_bdd.
+
+(** ** ALL histories (HIST): canonicity after any sequence of operations, handle drops,
+    garbage collections, variable additions and reorderings (the manager state machine of
+    Mgr/History.v; plain BDD kind; any operand order, any lossy cache) *)
+From OxiVerif Require Import DD.Sem DD.Build DD.Apply DD.ApplyProofs DD.ApplyEvalProofs DD.ConfigApply DD.Quant
+  DD.QuantSpecProofs Mgr.History Mgr.HistoryProofs Mgr.HistoryThms Mgr.HistorySpec Mgr.HistoryExamples.
+
+(* two handle slots hold the same edge IFF they denote the same function of the variables *)
+Theorem C01_hist_canonical :
+  forall (gt : ref -> ref -> bool) (C : Type) (cget : C -> N -> list ref -> option ref)
+         (cadd : C -> N -> list ref -> ref -> C), lossy cget cadd ->
+  forall cempty : C, (forall k a, cget cempty k a = None) ->
+  forall n st, hreach gt C cget cadd cempty n st ->
+  forall x y ex ey,
+    hget (s_handles (h_s C st)) x = Some ex -> hget (s_handles (h_s C st)) y = Some ey ->
+    (ex = ey <-> forall a, bfun_of (h_s C st) (eref ex) a = bfun_of (h_s C st) (eref ey) a).
+Proof. exact hist_canonical. Qed.
+Print Assumptions C01_hist_canonical.
+
+(* the same for every state satisfying the invariant *)
+Theorem C01_hist_inv_canonical :
+  forall (C : Type) (cget : C -> N -> list ref -> option ref) (st : hstate C), HInv C cget st ->
+  forall x y ex ey,
+    hget (s_handles (h_s C st)) x = Some ex -> hget (s_handles (h_s C st)) y = Some ey ->
+    (ex = ey <-> forall a, bfun_of (h_s C st) (eref ex) a = bfun_of (h_s C st) (eref ey) a).
+Proof. exact hinv_canonical. Qed.
+Print Assumptions C01_hist_inv_canonical.
+
+(* result correctness along histories: the destination holds the spec function [F] that [hspec]
+   reads off the operands' FUNCTIONS at the time of the call *)
+Theorem C01_hist_spec :
+  forall (gt : ref -> ref -> bool) (C : Type) (cget : C -> N -> list ref -> option ref)
+         (cadd : C -> N -> list ref -> ref -> C), lossy cget cadd ->
+  forall cempty : C, (forall k a, cget cempty k a = None) ->
+  forall (st : hstate C) o d F, HInv C cget st -> hspec C st o d F ->
+  exists st', hstep gt C cget cadd cempty st o = Some st' /\ HInv C cget st' /\
+              hframe C st o st' /\ holds C st' d F.
+Proof. exact hstep_spec. Qed.
+Print Assumptions C01_hist_spec.
+
+(* inside one manager the returned edge is determined by that function: every slot holding it
+   holds the very same edge *)
+Theorem C01_hist_result_unique :
+  forall (gt : ref -> ref -> bool) (C : Type) (cget : C -> N -> list ref -> option ref)
+         (cadd : C -> N -> list ref -> ref -> C), lossy cget cadd ->
+  forall cempty : C, (forall k a, cget cempty k a = None) ->
+  forall (st : hstate C) o d F st', HInv C cget st -> hspec C st o d F ->
+  hstep gt C cget cadd cempty st o = Some st' ->
+  forall y, holds C st' y F ->
+  hget (s_handles (h_s C st')) y = hget (s_handles (h_s C st')) d.
+Proof. exact hist_result_unique. Qed.
+Print Assumptions C01_hist_result_unique.
+
+(* across two managers (different histories, operand orders, cache implementations) with the same
+   variable order: same spec function => same function and same node count of the results *)
+Theorem C01_hist_result_determined :
+  forall (gt1 gt2 : ref -> ref -> bool) (C1 C2 : Type)
+         (cget1 : C1 -> N -> list ref -> option ref) (cadd1 : C1 -> N -> list ref -> ref -> C1)
+         (cget2 : C2 -> N -> list ref -> option ref) (cadd2 : C2 -> N -> list ref -> ref -> C2),
+  lossy cget1 cadd1 -> lossy cget2 cadd2 ->
+  forall (ce1 : C1) (ce2 : C2),
+  (forall k a, cget1 ce1 k a = None) -> (forall k a, cget2 ce2 k a = None) ->
+  forall (st1 : hstate C1) (st2 : hstate C2) o1 o2 d1 d2 F st1' st2',
+  HInv C1 cget1 st1 -> HInv C2 cget2 st2 ->
+  s_l2v (h_s C1 st1) = s_l2v (h_s C2 st2) -> s_v2l (h_s C1 st1) = s_v2l (h_s C2 st2) ->
+  hspec C1 st1 o1 d1 F -> hspec C2 st2 o2 d2 F ->
+  hstep gt1 C1 cget1 cadd1 ce1 st1 o1 = Some st1' -> hstep gt2 C2 cget2 cadd2 ce2 st2 o2 = Some st2' ->
+  exists r1 r2, hslot C1 st1' d1 = Some r1 /\ hslot C2 st2' d2 = Some r2 /\
+    (forall a, bfun_of (h_s C1 st1') r1 a = F a) /\
+    (forall a, bfun_of (h_s C2 st2') r2 a = F a) /\
+    count_reach (h_s C1 st1') (E r1) = count_reach (h_s C2 st2') (E r2).
+Proof. exact hist_result_determined. Qed.
+Print Assumptions C01_hist_result_determined.
+
+(* non-vacuity, on the computed state after the 24-call history [ex_ops] (Mgr/HistoryExamples.v):
+   a clone holds the same edge; two different edges denote different functions *)
+Theorem C01_hist_example :
+  hget (s_handles (h_s acache ex_stA)) 5 = hget (s_handles (h_s acache ex_stA)) 14 /\
+  forall e5 e7, hget (s_handles (h_s acache ex_stA)) 5 = Some e5 ->
+                hget (s_handles (h_s acache ex_stA)) 7 = Some e7 ->
+    ~ (forall a, bfun_of (h_s acache ex_stA) (eref e5) a = bfun_of (h_s acache ex_stA) (eref e7) a).
+Proof. exact ex_canonA. Qed.
+Print Assumptions C01_hist_example.
